@@ -75,10 +75,21 @@ Qed.
 
 Notation TT := the_tabs.
 
+Lemma t_nfd_eq : t_nfd TT =
+  fold_left (fun m kv => PositiveMap.add (ckey (fst kv)) (snd kv) m) gen_nfd (PositiveMap.empty _).
+Proof. reflexivity. Qed.
+Lemma t_comp_eq : t_comp TT =
+  fold_left (fun m (r : N * N * N) => PositiveMap.add (pair_key (fst (fst r)) (snd (fst r))) (snd r) m)
+            gen_comp (PositiveMap.empty _).
+Proof.
+  change (t_comp TT) with comp_map. unfold comp_map.
+  apply fold_left_ext. intros m [[a0 b0] c0]. reflexivity.
+Qed.
+
 Lemma nfd_find_some : forall c d,
   PositiveMap.find (ckey c) (t_nfd TT) = Some d -> In (c, d) gen_nfd.
 Proof.
-  intros c d H. change (t_nfd TT) with nfd_map in H. unfold nfd_map in H.
+  intros c d H. rewrite t_nfd_eq in H.
   apply (fold_add_find _ _ (fun kv : N * list N => ckey (fst kv)) (fun kv => snd kv)) in H.
   destruct H as [(e & He & Hk & Hv) | H].
   - destruct e as [c' d']. simpl in Hk, Hv. apply ckey_inj in Hk. subst c' d'. exact He.
@@ -104,10 +115,7 @@ Proof. vm_compute. reflexivity. Qed.
 Lemma comp_find_some : forall a b x, b < 2097152 ->
   PositiveMap.find (pair_key a b) (t_comp TT) = Some x -> In (a, b, x) gen_comp.
 Proof.
-  intros a b x Hb H. change (t_comp TT) with comp_map in H. unfold comp_map in H.
-  rewrite (fold_left_ext _ _ _
-             (fun m (r : N * N * N) => PositiveMap.add (pair_key (fst (fst r)) (snd (fst r))) (snd r) m)) in H.
-  2:{ intros m [[a0 b0] c0]. reflexivity. }
+  intros a b x Hb H. rewrite t_comp_eq in H.
   apply (fold_add_find _ _ (fun r : N * N * N => pair_key (fst (fst r)) (snd (fst r))) (fun r => snd r)) in H.
   destruct H as [(e & He & Hk & Hv) | H].
   - destruct e as [[a' b'] x']. simpl in Hk, Hv. subst x'.
@@ -228,24 +236,123 @@ Proof.
   - apply andb_true_iff in C1. destruct C1 as [C1 C4]. apply andb_true_iff in C1. destruct C1 as [C1 C3].
     apply andb_true_iff in C1. destruct C1 as [C1 C2].
     apply N.leb_le in C1, C3. apply N.ltb_lt in C2, C4.
-    pose proof (Nrange_sweep _ _ _ hangul_lv_decomp a C1 C2) as S. simpl in S.
-    pose proof (Nrange_sweep _ _ _ S b C3 C4) as S'. simpl in S'.
+    pose proof (Nrange_sweep _ _ _ hangul_lv_decomp a C1 C2) as S. cbv beta in S.
+    pose proof (Nrange_sweep _ _ _ S b C3 C4) as S'. cbv beta in S'.
     rewrite H in S'. now apply list_eqb_eq.
   - destruct ((SBase <=? a) && (a <? SBase + SCount) && ((a - SBase) mod TCount =? 0) && (TBase <? b) && (b <? TBase + TCount)) eqn:C2.
     + apply andb_true_iff in C2. destruct C2 as [C2 D5]. apply andb_true_iff in C2. destruct C2 as [C2 D4].
       apply andb_true_iff in C2. destruct C2 as [C2 D3]. apply andb_true_iff in C2. destruct C2 as [D1 D2].
       apply N.leb_le in D1. apply N.ltb_lt in D2, D4, D5.
-      pose proof (Nrange_sweep _ _ _ hangul_lvt_decomp a D1 D2) as S. simpl in S.
+      pose proof (Nrange_sweep _ _ _ hangul_lvt_decomp a D1 D2) as S. cbv beta in S.
       rewrite D3 in S.
       assert (B1 : TBase + 1 <= b) by lia.
       assert (B2 : b < TBase + 1 + (TCount - 1)) by (unfold TBase, TCount in *; lia).
-      pose proof (Nrange_sweep _ _ _ S b B1 B2) as S'. simpl in S'.
+      pose proof (Nrange_sweep _ _ _ S b B1 B2) as S'. cbv beta in S'.
       rewrite H in S'. now apply list_eqb_eq.
     + unfold compose_pair in H. rewrite C1, C2 in H.
       apply comp_find_some in H.
       2:{ unfold validb in Hb. apply N.ltb_lt in Hb. lia. }
-      pose proof comp_entries_decomp as S. rewrite forallb_forall in S. specialize (S _ H). simpl in S.
+      pose proof comp_entries_decomp as S. rewrite forallb_forall in S. specialize (S _ H). cbv beta iota in S.
       now apply list_eqb_eq.
 Qed.
 
+
+(* ------------------------------------------------------------------ *)
+(** * Combining classes versus the generated ranges *)
+
+Lemma add_range_find : forall n lo k m c v,
+  PositiveMap.find (ckey c) (add_range n lo k m) = Some v ->
+  (lo <= c /\ c < lo + N.of_nat n /\ v = k) \/ PositiveMap.find (ckey c) m = Some v.
+Proof.
+  induction n as [|n IH]; intros lo k m c v H.
+  - now right.
+  - simpl in H. apply IH in H. destruct H as [(A & B & C)|H].
+    + left. split; [lia|]. split; [lia|exact C].
+    + destruct (N.eq_dec c lo) as [E|NE].
+      * subst c. rewrite PositiveMap.gss in H. inversion H as [Hv]. left. split; [lia|]. split; [lia|reflexivity].
+      * rewrite PositiveMap.gso in H; [now right|]. intros X. apply ckey_inj in X. contradiction.
+Qed.
+
+Lemma t_ccc_eq : t_ccc TT =
+  fold_left (fun m (r : N * N * N) =>
+               add_range (N.to_nat (snd (fst r) + 1 - fst (fst r))) (fst (fst r)) (snd r) m)
+            gen_ccc (PositiveMap.empty _).
+Proof.
+  change (t_ccc TT) with ccc_map. unfold ccc_map.
+  apply fold_left_ext. intros m [[a0 b0] c0]. reflexivity.
+Qed.
+
+Lemma fold_range_find : forall (l : list (N * N * N)) m0 c v,
+  PositiveMap.find (ckey c)
+    (fold_left (fun m (r : N * N * N) =>
+                  add_range (N.to_nat (snd (fst r) + 1 - fst (fst r))) (fst (fst r)) (snd r) m) l m0) = Some v ->
+  (exists lo hi, In (lo, hi, v) l /\ lo <= c /\ c <= hi) \/ PositiveMap.find (ckey c) m0 = Some v.
+Proof.
+  induction l as [|[[lo hi] k] l IH]; intros m0 c v H; simpl in H.
+  - now right.
+  - apply IH in H. destruct H as [(lo' & hi' & Hin & Hr)|H].
+    + left. exists lo', hi'. split; [now right|exact Hr].
+    + apply add_range_find in H. destruct H as [(A & B & C)|H]; [|now right].
+      left. exists lo, hi. subst v. split; [now left|]. rewrite N2Nat.id in B. lia.
+Qed.
+
+(** a non-zero class comes from a range of the generated table ... *)
+Lemma ccc_nonzero : forall c, ccc TT c <> 0 ->
+  exists lo hi, In (lo, hi, ccc TT c) gen_ccc /\ lo <= c /\ c <= hi.
+Proof.
+  intros c H. unfold ccc in *. rewrite t_ccc_eq in *.
+  destruct (PositiveMap.find (ckey c) _) as [k|] eqn:E; [|contradiction].
+  apply fold_range_find in E. destruct E as [E|E]; [exact E|].
+  rewrite PositiveMap.gempty in E. discriminate.
+Qed.
+
+(** ... and every code point of a range of the table has the class of the range (the ranges
+    do not overlap) *)
+Lemma ccc_ranges_sweep :
+  forallb (fun r : N * N * N =>
+             forallb (fun c => ccc TT c =? snd r) (Nrange (N.to_nat (snd (fst r) + 1 - fst (fst r))) (fst (fst r))))
+          gen_ccc = true.
+Proof. vm_compute. reflexivity. Qed.
+
+Lemma ccc_in_range : forall lo hi k c, In (lo, hi, k) gen_ccc -> lo <= c -> c <= hi -> ccc TT c = k.
+Proof.
+  intros lo hi k c Hin H1 H2.
+  pose proof ccc_ranges_sweep as S. rewrite forallb_forall in S. specialize (S _ Hin). cbv beta in S.
+  change (snd (fst (lo, hi, k))) with hi in S. change (fst (fst (lo, hi, k))) with lo in S.
+  change (snd (lo, hi, k)) with k in S.
+  apply N.eqb_eq. apply (Nrange_sweep (fun c => ccc TT c =? k) lo (hi + 1 - lo) S c H1). lia.
+Qed.
+
+Lemma ccc_ranges_nonzero : forallb (fun r : N * N * N => negb (snd r =? 0)) gen_ccc = true.
+Proof. vm_compute. reflexivity. Qed.
+
+(** [ccc] is exactly the look-up in the generated range table *)
+Theorem ccc_spec : forall c k, k <> 0 ->
+  (ccc TT c = k <-> exists lo hi, In (lo, hi, k) gen_ccc /\ lo <= c /\ c <= hi).
+Proof.
+  intros c k Hk. split.
+  - intros E. subst k. now apply ccc_nonzero.
+  - intros (lo & hi & Hin & H1 & H2). now apply (ccc_in_range lo hi).
+Qed.
+
+Theorem ccc_zero_spec : forall c,
+  ccc TT c = 0 <-> ~ exists lo hi k, In (lo, hi, k) gen_ccc /\ lo <= c /\ c <= hi.
+Proof.
+  intros c. split.
+  - intros E (lo & hi & k & Hin & H1 & H2).
+    pose proof (ccc_in_range lo hi k c Hin H1 H2) as X.
+    pose proof ccc_ranges_nonzero as S. rewrite forallb_forall in S. specialize (S _ Hin). simpl in S.
+    apply negb_true_iff in S. apply N.eqb_neq in S. congruence.
+  - intros H. destruct (N.eq_dec (ccc TT c) 0) as [E|NE]; [exact E|].
+    exfalso. apply H. destruct (ccc_nonzero c NE) as (lo & hi & Hin & Hr).
+    exists lo, hi, (ccc TT c). now split.
+Qed.
+
+(** table entries: every decomposition is canonically ordered as listed, first components of
+    composites and all composites are starters *)
+Lemma comp_entries_starters :
+  forallb (fun r : N * N * N => (ccc TT (fst (fst r)) =? 0) && (ccc TT (snd r) =? 0)) gen_comp = true.
+Proof. vm_compute. reflexivity. Qed.
+
 Print Assumptions compose_pair_decomp.
+Print Assumptions ccc_spec.
